@@ -36,7 +36,7 @@ DYNAMIC = ["now()", "today()", "uuid()", "1 + 1", "7 * 4", "3 mod 3", "9 div 3",
            "1 - today()", "0 - 1 + now()", "today ()", "concat ('a', 'b')", "once (random())", "(0 - 7) + today()", "-1 * 3", "2020-01-01 + 1", "../t0[1]", "/data/x[1]/y"]
 DYN_REF = ["${%s}", "${%s} + 1", "concat(${%s}, 'z')", "if(${%s} = '', 'a', ${%s})", "${%s} - 7", "${%s} - ${%s}", "(0 - 7) + ${%s}", "7 - ${%s}",
            "../${%s}" if False else "0 - ${%s}"]
-BOUNDARY = ["a-b", "1-1", "f-4", "./f-4", "(x)", "../t0", "7 - 4", "{y}", "a - b"]
+BOUNDARY = ["a-b", "1-1", "f-4", "./f-4", "(x)", "../t0", "7 - 4", "{y}", "a - b", "+5", "+0.5", "1e+3", "2E-2", "+.5"]
 TYPES = ["text", "integer", "decimal", "date", "time", "dateTime", "geopoint", "geotrace", "note", "select_one", "select_multiple", "image",
          "barcode", "range", "hidden", "acknowledge", "calculate"]
 
@@ -48,6 +48,10 @@ def _cases(draw):
     g = gen.G(draw, prof)
     form = gen.build_form(draw, prof, g=g)
     names = [n["c"]["name"] for n, _ in model.walk(form["nodes"]) if n["k"] == "q" and "name" in n["c"]]
+    for n, _ in model.walk(form["nodes"]):
+        if n["k"] == "r" and g.p("_", 0.25):
+            # a fixed-size roster: no add/remove buttons (new instances still come from repeat_count and still need their defaults)
+            n["c"]["body::jr:noAddRemove"] = g.pick(["true()", "true()", "false()"])
     for n, anc in model.walk(form["nodes"]):
         if n["k"] != "q" or "trigger" in n["c"]:
             continue
